@@ -72,11 +72,11 @@ def _drain(q, nr, ncols):
     return out
 
 
-def run_delay(impl, us, times, qdt, ncols, x0=None, t0=0.0, dt=None):
+def run_delay(impl, us, times, qdt, ncols, x0=None, t0=0.0, dt=None, template=None):
     from bioscrape.simulator import DelaySSASimulator, ArrayDelayQueue
     impl.start(x0, t0, dt)
     nr = len(impl.spec['reactions'])
-    q = ArrayDelayQueue.setup_queue(nr, ncols, qdt)
+    q = template.py_copy() if template is not None else ArrayDelayQueue.setup_queue(nr, ncols, qdt)
     with Stream(us) as st:
         res = DelaySSASimulator().py_delay_simulate(impl.iface, q, np.array(times, dtype=float))
     fq = res.py_get_delay_queue()
